@@ -66,10 +66,12 @@ reg(Zoo(
                 states=[S('S1', irows=[IR('e3')]), S('S2', irows=[IR('e5')]), S('T1'), S('T2', irows=[IR('e1')])],
                 initial=['S1', 'T1'],
                 rows=[
+                    # rows of the second region first: its states get the lower ids, so that "region order" and
+                    # "state id order" differ for the active states (S1/S2 have higher ids than T1)
+                    R('T1', 'e1', 'T2'),
                     R('S1', 'e1', 'S2'),
                     R('S2', 'e1', 'S1'),
                     R('S2', 'e2', 'S1'),
-                    R('T1', 'e1', 'T2'),
                     R('T2', 'e3', 'T1'),
                     R('T1', 'e4', 'T2', a=False),
                 ],
@@ -124,7 +126,7 @@ reg(Zoo(
 # hier3: root -> Mid -> Leaf, the same event guarded at all three levels
 reg(Zoo(
     name='hier3',
-    events=['e1', 'e2', 'e3', 'e4'],
+    events=['e1', 'e2', 'e3', 'e4', 'e5'],
     root=Machine(
         'Top',
         states=[
@@ -137,7 +139,8 @@ reg(Zoo(
                         'Leaf',
                         states=[S('L1'), S('L2', irows=[IR('e3')])],
                         initial=['L1'],
-                        rows=[R('L1', 'e1', 'L2'), R('L2', 'e1', 'L1'), R('L1', 'e4', 'L2', a=False)],
+                        # e5 occurs in Leaf's table only (not in Mid's): Top must still forward it two levels down
+                        rows=[R('L1', 'e1', 'L2'), R('L2', 'e1', 'L1'), R('L1', 'e4', 'L2', a=False), R('L2', 'e5', 'L1'), R('L1', 'e5', None, a=False)],
                     )),
                     S('N1'), S('N2'),
                 ],
@@ -157,6 +160,7 @@ reg(Zoo(
             R('Mid', 'e1', 'R1'),
             R('Mid', 'e3', 'R1', a=False),
             R('Mid', 'e4', None, a=False),
+            R('Mid', 'e5', 'R1'),
         ],
     ),
     menu=[('pe', 'e1', 'local'), ('eq', 'e2', 'root')],
@@ -180,9 +184,12 @@ def hist_zoo(tag, history):
                             S('C1'), S('C2', kind='explicit', zone=2)],
                     initial=['A1', 'B1', 'C1'],
                     rows=[
-                        R('A1', 'e4', 'A2', a=False, g=False), R('A2', 'e4', 'A1', a=False, g=False),
-                        R('B1', 'e5', 'B2', a=False, g=False), R('B2', 'e5', 'B1', a=False, g=False),
-                        R('C1', 'e6', 'C2', a=False, g=False), R('C2', 'e6', 'C1', a=False, g=False),
+                        # declared so that state ids do not follow region order (C1 < B1 < A2 < A1 ...)
+                        R('C1', 'e6', 'C2', a=False, g=False),
+                        R('B1', 'e5', 'B2', a=False, g=False),
+                        R('A2', 'e4', 'A1', a=False, g=False), R('A1', 'e4', 'A2', a=False, g=False),
+                        R('B2', 'e5', 'B1', a=False, g=False),
+                        R('C2', 'e6', 'C1', a=False, g=False),
                     ],
                     history=history,
                 )),
@@ -261,7 +268,7 @@ reg(Zoo(
             S('I'), S('A'), S('B'), S('C'), S('D'),
             S('CSub', kind='sub', sub=Machine(
                 'CSub',
-                states=[S('P'), S('Q'), S('Rr')],
+                states=[S('P'), S('Q', kind='explicit', zone=0), S('Rr')],
                 initial=['P'],
                 rows=[
                     R('P', None, 'Q'),
@@ -282,6 +289,7 @@ reg(Zoo(
             R('C', None, 'D', g=False),
             R('D', 'e1', 'CSub', a=False, g=False),
             R('D', 'e2', 'W', a=False, g=False),
+            R('D', 'e3', ('direct', 'CSub', 'Q'), a=False, g=False),   # names every region of CSub; Q has a completion row
             R('W', 'e1', 'I', a=False, g=False),
             R('I', 'e1', 'A', a=False, g=False),
             R('A', 'e1', 'D', a=False, g=False),
@@ -337,7 +345,7 @@ reg(Zoo(
             S('T', kind='terminate', flags=['F2']),
             S('I1', kind='interrupt', end_events=['e5'], flags=['F1']),
             S('I2', kind='interrupt', end_events=['e5', 'e6']),
-            S('M1', defer=['e4']), S('M2'),
+            S('M1', defer=['e4']), S('M2'), S('T2', kind='terminate'),
         ],
         initial=['N1', 'M1'],
         rows=[
@@ -354,6 +362,7 @@ reg(Zoo(
             R('M1', 'e5', 'M2', g=False),
             R('M2', 'e4', None, g=False),
             R('M2', 'e6', None, g=False),
+            R('M2', 'e3', 'T2', a=False),     # with e3 the first region enters an interrupt state in the same step
         ],
     ),
     menu=[('pe', 'e1', 'local'), ('eq', 'e4', 'local')],
